@@ -472,13 +472,22 @@ func WithCPUBudget(d time.Duration, f func()) bool {
 	cpu0, t0 := cpuTime(), time.Now()
 	tick := time.NewTicker(200 * time.Millisecond)
 	defer tick.Stop()
+	winStart, winCPU := t0, cpu0
 	for {
 		select {
 		case <-done:
 			return true
-		case <-tick.C:
-			if cpuTime()-cpu0 > d || time.Since(t0) > 8*d {
+		case now := <-tick.C:
+			cpu := cpuTime()
+			if cpu-cpu0 > d || now.Sub(t0) > 8*d {
 				return false
+			}
+			// blocked rather than looping: 20 s of wall-clock time without processor time
+			if now.Sub(winStart) >= 20*time.Second {
+				if cpu-winCPU < 200*time.Millisecond {
+					return false
+				}
+				winStart, winCPU = now, cpu
 			}
 		}
 	}
